@@ -1166,6 +1166,13 @@ func (g *v6Gen) parserMutants(budget int) {
 		}
 	}
 	ms = append(ms, mut{"extra-segment", []byte(full + ".AAAA")})
+	ms = append(ms, mut{"extra-segments-garbage", []byte(full + ".!!.??")})
+	ms = append(ms, mut{"trailing-dot", []byte(full + ".")})
+	ms = append(ms, mut{"trailing-newline", []byte(full + "\n")})
+	ms = append(ms, mut{"sig-padded", []byte(si + "." + base64.URLEncoding.EncodeToString(sig))})
+	ms = append(ms, mut{"sig-std-alphabet", []byte(si + "." + base64.RawStdEncoding.EncodeToString(sig))})
+	ms = append(ms, mut{"sig-newline-inside", []byte(si + "." + v6b64(sig)[:10] + "\n" + v6b64(sig)[10:])})
+	ms = append(ms, mut{"payload-padded", []byte(prot + "." + base64.URLEncoding.EncodeToString([]byte(ph)) + "." + v6b64(sig))})
 	ms = append(ms, mut{"two-segments", []byte(si)})
 	ms = append(ms, mut{"ws-around", []byte(" " + full + "\n")})
 	ms = append(ms, mut{"std-b64-hdr", []byte(base64.StdEncoding.EncodeToString([]byte(hdr)) + "." + pl + "." + v6b64(sig))})
@@ -1234,6 +1241,8 @@ type v6Spec struct {
 	twoSigs  bool
 	embedPriv bool // embed the signer's PRIVATE key as jwk
 	flat     bool // JWS flattened JSON serialisation instead of compact
+	extraSeg bool // a fourth compact segment appended
+	framing  int  // 1 = signature segment padded, 2 = signature in the standard alphabet, 3 = trailing newline
 	ver      int  // 0 = 2
 }
 
@@ -1272,11 +1281,24 @@ func (g *v6Gen) build(sp v6Spec) ([]byte, v6Call) {
 		parts := strings.Split(si, ".")
 		input = []byte(fmt.Sprintf(`{"payload":"%s","protected":"%s","signature":"%s"}`, parts[1], parts[0], v6b64(sig)))
 	}
+	if sp.extraSeg && !sp.flat && !sp.twoSigs {
+		input = append(input, []byte(".AAAA")...)
+	}
+	if sp.framing > 0 && !sp.flat && !sp.twoSigs && !sp.extraSeg {
+		switch sp.framing {
+		case 1:
+			input = []byte(si + "." + base64.URLEncoding.EncodeToString(sig))
+		case 2:
+			input = []byte(si + "." + base64.RawStdEncoding.EncodeToString(sig))
+		case 3:
+			input = append(input, '\n')
+		}
+	}
 	g.lastSi, g.lastSig = si, sig
 	c := v6CallOf(input)
 	// verdicts: ECDSA verification done here with crypto/ecdsa (independent of jws.Verify), cross-checked with what was signed
 	c.SigJwk, c.SigKeys = v6Verdicts(input, g.keys)
-	if !sp.twoSigs {
+	if !sp.twoSigs && !sp.extraSeg && sp.framing == 0 {
 		algOK := sp.alg == "" || sp.alg == "ES256"
 		valid := !sp.tamper && algOK
 		if c.SigJwk != (valid && sp.embed == sp.signer) || (len(c.SigKeys) > 0) != valid {
@@ -1509,7 +1531,13 @@ func (g *v6Gen) history(steps int, schedules bool) {
 			}
 			lc, _ := strconv.Atoi(sp.lc)
 			for j := 0; j < nd; j++ {
-				switch d := g.rnd.Intn(23); d {
+				switch d := g.rnd.Intn(25); d {
+				case 24:
+					sp.framing = 1 + g.rnd.Intn(3)
+					note += ":lenient-base64-" + strconv.Itoa(sp.framing)
+				case 23:
+					sp.extraSeg = true
+					note += ":extra-segment"
 				case 22:
 					if sp.embed < 0 {
 						sp.embed = sp.signer
